@@ -117,7 +117,7 @@ class ProcessDiameterMessage:
             if avp.get_length() == AVP_HEADER_LENGTH + len(avp.data):
                 checklist_mandatory_info += 1
 
-            data = avp.data.decode("utf-8")
+            data = avp.data.decode("utf-8", errors="replace")
             process_message_logging.debug(f"data: {data}.")
             if data == connection.peer_node.host_name:
                 checklist_mandatory_info += 1
@@ -145,7 +145,7 @@ class ProcessDiameterMessage:
             if avp.get_length() == AVP_HEADER_LENGTH + len(avp.data):
                 checklist_mandatory_info += 1
 
-            data = avp.data.decode("utf-8")
+            data = avp.data.decode("utf-8", errors="replace")
             process_message_logging.debug(f"data: {data}.")
             if data == connection.peer_node.realm:
                 checklist_mandatory_info += 1
@@ -201,7 +201,6 @@ class ProcessDiameterMessage:
     @staticmethod
     def is_valid_host_ip_address_avp(avp, connection):
         if (avp.code == HOST_IP_ADDRESS_AVP_CODE):
-            host_ip_address = "{}.{}.{}.{}".format(int(avp.data[2]),int(avp.data[3]),int(avp.data[4]),int(avp.data[5]))
             return True
             # if connection.peer_node.ip_address == host_ip_address:
             #     return True
